@@ -48,6 +48,8 @@ type Tree struct {
 	Blocks []Block  `json:"blocks"`
 	Keys   []string `json:"keys"`
 	Quiet  bool     `json:"quiet,omitempty"`
+	// WideTxns counts transactions of more than 30 writes
+	WideTxns int `json:"wide_txns,omitempty"`
 	byHash map[string]*Block
 }
 
@@ -143,6 +145,13 @@ func Gen(rt *rapid.T, p Params) *Tree {
 		t.Keys = append(t.Keys, fmt.Sprintf("k%d", i))
 	}
 	n := gen.Uniform(rt, 2, p.MaxBlocks, "nblocks")
+	// names that run into each other: a key that is another key plus the first letter of the block hashes, and block
+	// hashes that are another block's hash with that letter in front ("k0"+"BB3" reads like "k0B"+"B3")
+	runTogether := nk >= 2 && gen.Chance(rt, 8, "runtogether")
+	if runTogether {
+		t.Keys[1] = t.Keys[0] + "B"
+	}
+	usedHash := map[string]bool{}
 	valSeq := 0
 	// a tenth of the trees name their blocks with hex-looking hashes and give fork siblings hashes that differ only in
 	// letter case
@@ -157,6 +166,7 @@ func Gen(rt *rapid.T, p Params) *Tree {
 		}
 	}
 	t.Quiet = quiet
+	wideTree := !quiet && gen.Chance(rt, 10, "widetree")
 	// values come back: a write often stores a value the key had before (possibly the one that is visible right now)
 	past := map[string][]string{}
 	newVal := func(key string) string {
@@ -176,6 +186,12 @@ func Gen(rt *rapid.T, p Params) *Tree {
 		if caseTwins {
 			b.Hash = fmt.Sprintf("b%dfa", i) // hex-looking, lower case; a fork sibling may get the upper-case twin
 		}
+		if runTogether && !caseTwins && i >= 1 && gen.Chance(rt, 35, "longhash") {
+			if h := "B" + t.Blocks[gen.Uniform(rt, 0, i-1, "longhashof")].Hash; !usedHash[h] {
+				b.Hash = h
+			}
+		}
+		usedHash[b.Hash] = true
 		switch {
 		case i == 0:
 			b.Prev = ""
@@ -225,6 +241,19 @@ func Gen(rt *rapid.T, p Params) *Tree {
 					w.Val = newVal(w.Key)
 				}
 				tx.Writes = append(tx.Writes, w)
+			}
+			if wideTree && gen.Chance(rt, 40, "widetx") {
+				// a big transaction: the few keys that are looked up plus 32..70 others, in one batch
+				var fill []Write
+				for f, nf := 0, gen.Uniform(rt, 30, 70, "nfill"); f < nf; f++ {
+					fill = append(fill, Write{Key: fmt.Sprintf("w%d", f), Val: fmt.Sprintf("f%d", valSeq+f)})
+				}
+				if gen.Chance(rt, 50, "fillfirst") {
+					tx.Writes = append(fill, tx.Writes...)
+				} else {
+					tx.Writes = append(tx.Writes, fill...)
+				}
+				t.WideTxns++
 			}
 			if p.Abandoned {
 				if gen.Chance(rt, 15, "txabandon") {
